@@ -30,7 +30,7 @@ CHECKS = {
    note="The endpoint-equality clause uses a numeric predicate computed by the recorder (|delta| <= 64 eps (|y_old|+|y_new|), 1e-9 relative for BDF) - exploration-level for that clause; chain/coverage/error classes are order facts decided by TLC.",
    ref="5 (C06)"),
  "C07": dict(cat="proof", tech="TLA+ tableau specification: continuous order conditions as coefficient-wise integer identities discharged by Apalache; bound to the code by dense-weight extraction validated by a TLC trace spec",
-   text="Continuous weights b_j(theta) of RK4 (cubic Hermite), RK23 and DOPRI5 as rational polynomials in TLA+; all continuous order conditions up to q (3,3,4), b_j(0)=0, b_j(1)=b_j discharged by Apalache; the b_j(theta) the real code computes (StepInterpolant and Solution::sol, h=+-1) are extracted and compared with the specification within 16 ulp by a TLC trace spec. DOP853: bushy-tree continuous conditions to order 7 within 1e-24 and conformance of the extracted weights to the published table. Sparse-output mode (XOut, dense_output off) and the landing step are probed too. Restart probes (Trace_Stepper clause C07/restart): at every callback of recorded low-level runs of the explicit methods - runs with rejections and runs of more than 1000 steps - a freshly built solver redoes the step and must hand out the same polynomial (1e-9).",
+   text="Continuous weights b_j(theta) of RK4 (cubic Hermite), RK23 and DOPRI5 as rational polynomials in TLA+; all continuous order conditions up to q (3,3,4), b_j(0)=0, b_j(1)=b_j discharged by Apalache; the b_j(theta) the real code computes (StepInterpolant and Solution::sol, h=+-1) are extracted and compared with the specification within 16 ulp by a TLC trace spec. DOP853: bushy-tree continuous conditions to order 7 within 1e-24 and conformance of the extracted weights to the published table. Sparse-output mode (XOut, dense_output off) and the landing step are probed too. Restart probes (Trace_Stepper clause C07/restart): at every callback of recorded low-level runs of the explicit methods - runs with rejections and runs of more than 1000 steps - a freshly built solver redoes the step and must hand out the same polynomial (1e-9); BDF: after `order` steps of equal size the polynomial handed out reproduces the order+1 accepted states it is built from (1e-9; 1e-14 observed).",
    note="NOT decided: the remaining continuous tree conditions of DOP853, Radau, BDF (numeric).",
    ref="5 (C07), 3.4"),
  "C08": dict(cat="model_checking", tech=TLA + ": bounded-exhaustive handler model with event functions, replayed into the real DefaultSolOut (real Brent code), traces validated by TLC; plus recorded solve_ivp runs",
